@@ -295,6 +295,7 @@ func (cs *ContractSet) parseFile(fset *token.FileSet, f *ast.File, pkgPath, file
 	var cur *Contract
 	finish := func() {
 		if cur != nil {
+			propagateProps(cur)
 			cs.Funcs[cur.Pkg+"::"+cur.FuncName] = cur
 			cur = nil
 		}
@@ -410,7 +411,7 @@ func (cs *ContractSet) parseFile(fset *token.FileSet, f *ast.File, pkgPath, file
 					t = strings.TrimSpace(t[:i])
 				}
 				cs.Guarded = append(cs.Guarded, &FrameSpec{Kind: word, Pkg: pkgPath, Text: t, Props: props, Line: l.line, File: fileName})
-			case "reads-covered", "immutable-outside":
+			case "reads-covered", "immutable-outside", "decodes":
 				var props []string
 				t := rest
 				if i := strings.LastIndex(t, "@props "); i >= 0 {
@@ -666,3 +667,67 @@ func parseDefine(s string) (*Define, error) {
 // their most recent call on every path
 var watchedRe = regexp.MustCompile(`(lastresult|lastarg|atlast|lastcalled)\(\s*([A-Za-z_][A-Za-z0-9_]*)`)
 var watchedCallees = map[string]bool{}
+
+// propagateProps: a clause is only as claimed as the clauses it is proved from. When a clause that is
+// claimed for properties P names its hypotheses (@using a, b), the clauses called a and b of the same
+// contract are claimed for P as well (otherwise a change that breaks the invariant would be reported under
+// the function's default properties only, and the check of P would stay silent). Transitive.
+func propagateProps(c *Contract) {
+	var all []*Clause
+	all = append(all, c.Ensures...)
+	all = append(all, c.Requires...)
+	for _, l := range c.Loops {
+		all = append(all, l.Entry...)
+		all = append(all, l.Invariants...)
+	}
+	for _, f := range c.Folds {
+		all = append(all, f.Invariants...)
+	}
+	for _, cs := range c.CallSites {
+		all = append(all, cs.Clause)
+	}
+	union := func(a, b []string) ([]string, bool) {
+		changed := false
+		for _, x := range b {
+			if !hasProp(a, x) {
+				a = append(a, x)
+				changed = true
+			}
+		}
+		return a, changed
+	}
+	for round := 0; round < 8; round++ {
+		changed := false
+		for _, cl := range all {
+			if cl == nil || len(cl.Props) == 0 || len(cl.Using) == 0 {
+				continue
+			}
+			for _, d := range all {
+				if d == nil || d == cl || d.Name == "" {
+					continue
+				}
+				used := false
+				for _, u := range cl.Using {
+					if u == d.Name {
+						used = true
+					}
+				}
+				if !used {
+					continue
+				}
+				base := d.Props
+				if len(base) == 0 {
+					base = append([]string{}, c.Props...)
+				}
+				nb, ch := union(base, cl.Props)
+				if ch || len(d.Props) == 0 {
+					d.Props = nb
+					changed = changed || ch
+				}
+			}
+		}
+		if !changed {
+			break
+		}
+	}
+}
